@@ -301,6 +301,7 @@ def shared_objects():
     bdyn = bath_dynamics.TwoTimeBathCorrelations(sysm, bath, pt, initial_state=RHO.copy())
     return {"system": sysm, "bath": bath, "params": params, "pt": pt, "ctrl": ctrl, "bdyn": bdyn,
             "params_nomem": oqupy.TempoParameters(dt=0.1, epsrel=1e-7, dkmax=None),
+            "tdsys": oqupy.TimeDependentSystem(lambda t: 0.5 * SX + 0.3 * np.cos(2.0 * t) * SZ),
             "rho": RHO.copy(), "psys": oqupy.ParameterizedSystem(lambda x, y: x * SX + y * SZ),
             "pars": np.array([[0.3, 0.1]] * 6)}
 
@@ -329,6 +330,10 @@ def use(kind, o):
         r = oqupy.state_gradient(system=o["psys"], initial_state=o["rho"], target_derivative=np.array([[0.2, 0.1], [0.1, 0.8]], dtype=complex),
                                  process_tensors=[o["pt"]], parameters=o["pars"], progress_type="silent")
         return np.array(r["gradient"])
+    if kind in ("td-start0", "td-start1"):
+        # one time-dependent system object, computations starting at different times
+        return np.array(oqupy.compute_dynamics(o["tdsys"], initial_state=o["rho"], dt=0.1, num_steps=3,
+                                               start_time=0.0 if kind == "td-start0" else 0.45, progress_type="silent").states)
     if kind == "gradient-inplace":
         # the caller updates its own parameter table in place (a gradient-descent step) and asks again
         o["pars"][...] = np.array([[0.1, 0.4], [0.2, 0.3], [0.3, 0.2], [0.4, 0.1], [0.5, 0.0], [0.6, -0.1]])
@@ -743,7 +748,7 @@ def run(ctx):
                 raise core.MachineryError(x["detail"])
             ctx.violation("C20:snapshot:%s:%s" % (k, x["what"]), "%s %s: %s" % (k, hd, x), {"snapshot": [c, k]})
     # (C) reuse of shared objects
-    kinds = '{"tempo", "pttempo", "dynamics", "correlations", "gradient", "gradient-inplace", "tebd", "bathcorr-early", "bathcorr-late", "bathocc", "pttempo-nomem-short", "tempo-nomem-long"}'
+    kinds = '{"tempo", "pttempo", "dynamics", "correlations", "gradient", "gradient-inplace", "td-start0", "td-start1", "tebd", "bathcorr-early", "bathcorr-late", "bathocc", "pttempo-nomem-short", "tempo-nomem-long"}'
     ru = ctx.tlc("ObjectGraph", CFG_USE, label="sequences of computations re-using shared objects", workers=2,
                  constants=dict(consts, Devs="{}", MaxOps="2" if quick else "3", UseKinds=kinds))
     for c, mm in zip(ru.cases, core.pmap(reuse_job, ru.cases)):
